@@ -4,6 +4,8 @@ import Verif.Drv.Config
 import Verif.Drv.Lines
 import Verif.Drv.FileScan
 import Verif.Drv.FixSched
+import Verif.Drv.LeanMark
+import Verif.Drv.WellFormed
 
 /-- model name → request handler (one request line in, one answer line out). -/
 def models : List (String × (String → String)) :=
@@ -12,7 +14,11 @@ def models : List (String × (String → String)) :=
    ("config", Verif.Drv.Config.step),
    ("lines", Verif.Drv.Lines.step),
    ("filescan", Verif.Drv.FileScan.step),
-   ("fixsched", Verif.Drv.FixSched.step)]
+   ("fixsched", Verif.Drv.FixSched.step),
+   ("leanmark-html", Verif.Drv.LeanMark.stepHtml),
+   ("leanmark-events", Verif.Drv.LeanMark.stepEvents),
+   ("leanmark-inscope", Verif.Drv.LeanMark.stepInScope),
+   ("wf", Verif.Drv.WellFormed.step)]
 
 partial def loop (h : IO.FS.Stream) (out : IO.FS.Stream) (f : String → String) : IO Unit := do
   let line ← h.getLine
